@@ -49,6 +49,17 @@ def ops_in(e):
     return {d.split(".")[1] for d in (dotted(x) for x in ast.walk(e) if isinstance(x, ast.Attribute)) if d and d.startswith("CigarOp.")}
 
 
+_AGGREGATE_REFERENCE = '''
+def _aggregate_consecutive(operations):
+    op_start_indices = np.where(operations[:-1] != operations[1:])[0]
+    op_start_indices += 1
+    op_start_indices = np.concatenate(([0], op_start_indices))
+    ops = operations[op_start_indices]
+    length = np.diff(np.append(op_start_indices, len(operations)))
+    return np.stack((ops, length), axis=-1)
+'''
+
+
 def run(ctx):
     # FASTA conversion stores every row through FastaFile.__setitem__ and reads the recorded line ranges back
     from .C12 import fasta_append_rules
@@ -214,9 +225,14 @@ def run(ctx):
            "clipped bases are the segment positions before the first and after the last aligned one", fc.lineno)
     ag = s.func("_aggregate_consecutive")
     at = ast.unparse(ag)
+    # the whole function against the computation it has to be (equiv.same_function: result as an expression in `operations`, in-place
+    # effects included) - the order of its statements matters: the `+ 1` belongs in front of the leading 0
+    from ..equiv import same_function
+    ok_ag, shown_ag = same_function(ag, _AGGREGATE_REFERENCE)
     ctx.ob("R3.run-lengths", CIG, "_aggregate_consecutive", "runs start where operations[:-1] != operations[1:]",
-           has_code(ag, "np.where(operations[:-1] != operations[1:])[0]") and has_code(ag, "op_start_indices += 1")
-           and has_code(ag, "np.diff(np.append(op_start_indices, len(operations)))"), "run lengths must sum to the number of columns", ag.lineno)
+           ok_ag and has_code(ag, "np.where(operations[:-1] != operations[1:])[0]") and has_code(ag, "op_start_indices += 1")
+           and has_code(ag, "np.diff(np.append(op_start_indices, len(operations)))"),
+           "run lengths must sum to the number of columns (the function computes " + shown_ag + ")", ag.lineno)
     # writer: each item is <count> immediately followed by <symbol> (concatenation or f-string, any loop form)
     f = s.func("_cigar_from_op_tuples")
     okw = False
